@@ -145,8 +145,21 @@ def check_writer(prog):
     disp_types = sorted({(t.get("argtys") or ["?"])[0].lstrip("&") for b, t in disp})
     key = "writer:strings-escaped"
     problems = []
-    if len(esc) < 4:
-        problems.append("only %d calls of escape_string_json_buf (3 string-value paths + 1 key path expected)" % len(esc))
+    # every path through the Val::Str arm passes an escaper call before the function returns (must-pass-through)
+    str_start = None
+    for u, v, fct in f._cond_edge_list():
+        if strip(fct[0])[:2] == ("discr", ("param", 1)) and fct[1] == ("variant", "Str") and str_start is None:
+            str_start = v
+    if str_start is None:
+        problems.append("no Val::Str edge found in the writer")
+    else:
+        esc_blocks = tuple(b for b, t in esc)
+        errs = tuple(b for b, t in f.calls() if "FromResidual" in (t.get("fn") or ""))
+        seen = ({str_start} if str_start not in esc_blocks else set()) | (f.reach_from(str_start, removed_blocks=esc_blocks + errs) if str_start not in esc_blocks else set())
+        if any(r in seen for r in f.returns()):
+            problems.append("a string value can reach the return without passing through escape_string_json_buf")
+    if len(esc) < 2:
+        problems.append("only %d calls of escape_string_json_buf (string values and object keys expected)" % len(esc))
     # exp-bigint prints a big integer as a JSON string with `{:?}` of its decimal digits: Debug of [-0-9]* is the quoted text itself
     dbg = [(b, t) for b, t in dbg if not ("BigInt" in show(strip(f.desc_op(t["args"][0]))) and "to_string" in show(strip(f.desc_op(t["args"][0]))))]
     if dbg:
